@@ -243,6 +243,43 @@ pub fn run(case: &Value) -> Vec<Value> {
                     Err(_) => json!({"stop": "unwound", "ev": ev}),
                 }
             }
+            "forced_wait" => {
+                // the schedule the property asks for: the task completes between the waiter's first
+                // result check and its registration (pause point in wait_task_result)
+                let id = ids[t.expect("t")];
+                let pool_addr = std::ptr::from_ref::<CoroutinePool<'static>>(&*pools[p.expect("p")]) as usize;
+                let (tx_h3, rx_h3) = std::sync::mpsc::channel::<()>();
+                let (tx_ack, rx_ack) = std::sync::mpsc::channel::<()>();
+                let tx_h3 = std::sync::Mutex::new(tx_h3);
+                let rx_ack = std::sync::Mutex::new(rx_ack);
+                verif::set_observer(Some(Box::new(move |name, a, _| {
+                    if name == "wait_task_result:before_register" && a == id {
+                        let _ = tx_h3.lock().expect("h3").send(());
+                        let _ = rx_ack.lock().expect("ack").recv_timeout(Duration::from_secs(5));
+                    }
+                })));
+                let waiter = std::thread::spawn(move || {
+                    // the runtime shares pools between threads the same way (raw pointers through the bean factory)
+                    let pool = unsafe { &*(pool_addr as *const CoroutinePool<'static>) };
+                    let t0 = std::time::Instant::now();
+                    let r = match pool.wait_task_result(id, Duration::from_millis(1500)) {
+                        Ok(r) => json!({"val": tres_json(r)}),
+                        Err(e) if e.kind() == std::io::ErrorKind::TimedOut => json!("timeout"),
+                        Err(_) => json!("err"),
+                    };
+                    (r, t0.elapsed())
+                });
+                let reached = rx_h3.recv_timeout(Duration::from_secs(2)).is_ok();
+                if reached {
+                    let _ = pools[p.expect("p")].try_timeout_schedule_task(u64::MAX);
+                    let _ = tx_ack.send(());
+                }
+                let (r, el) = waiter.join().expect("waiter");
+                verif::set_observer(None);
+                let _ = take_log();
+                json!({"forced_wait": r, "prompt": el < Duration::from_millis(700), "h3": reached,
+                       "elapsed_ms": u64::try_from(el.as_millis()).unwrap_or(u64::MAX)})
+            }
             "running" => json!({"num": pools[p.expect("p")].get_running_size()}),
             "size" => json!({"num": pools[p.expect("p")].size()}),
             "state" => json!({"state": match pools[p.expect("p")].state() {
